@@ -805,7 +805,8 @@ def withdraw_rules(R, env, prog, hctx, rule, pid):
         R.ob(rule, "Withdraw:removes-own-request", req_key(op["args"][2]), "request removed under key %s, expected (loaded batch id, info.sender)" % fmt(op["args"][2])[:160], loc=op["loc"], fn=hk)
         R.ob(rule, "Withdraw:removal-on-every-success-path", must_pass(hctx, op["root_bb"]), "a success exit (payout) is reachable without deleting the claim: it can be withdrawn again", loc=op["loc"], fn=hk)
     # absence of a request is an error exit
-    G = Guard("has-request", subject=lambda s: False, boolean=lambda t: (False if (t[0] == "call" and t[1] == "std::option::Option::is_none" and t[2][0][0] == "payload" and request(("payload", t[2][0], "Ok/Some"))) else (True if (t[0] == "call" and t[1] == "std::option::Option::is_some" and t[2][0][0] == "payload" and request(("payload", t[2][0], "Ok/Some"))) else None)),
+    # (also `may_load(..)?.map(|r| r.amount).ok_or(NoRequest)?`: a test of a value that is Some exactly when the request is)
+    G = Guard("has-request", subject=lambda s: s[0] == "payload" and request(("payload", s, "Ok/Some")), boolean=lambda t: (False if (t[0] == "call" and t[1] == "std::option::Option::is_none" and t[2][0][0] == "payload" and request(("payload", t[2][0], "Ok/Some"))) else (True if (t[0] == "call" and t[1] == "std::option::Option::is_some" and t[2][0][0] == "payload" and request(("payload", t[2][0], "Ok/Some"))) else None)),
               variant=lambda subj, names: ({"Some"} if (subj[0] == "payload" and request(("payload", subj, "Ok/Some"))) else None))
     found = []
     ok, off = guarded(hctx, G, prog, env.depth, found)
